@@ -2203,9 +2203,10 @@ static bool parse_next(TokenContext &ctx, Chunk &pc, const Chunk *prev_pc)
          size_t ch = ctx.peek();
 
          // Fix for issue #1752
-         // Ignoring extra spaces after ' \ ' for preproc body continuations
+         // Ignoring extra spaces and tabs after ' \ ' for preproc body continuations
          if (  last == '\\'             // 92
-            && ch == ' ')               // 32
+            && (  ch == ' '             // 32
+               || ch == '\t'))
          {
             ctx.get();
             continue;
